@@ -60,10 +60,12 @@ def _stub_gp(h, d, ny=2, smooth=True, tag=""):
 
 def _acq(h, kind, d, smooth=True):
     import inference.gp.acquisition as aq
-    h.patch(aq, erf=funcs.erf, erfcx=funcs.erfcx)
+    h.patch(aq, erf=funcs.erf, erfcx=funcs.erfcx, float=stubs.FloatLike)
     gp, mu, var = _stub_gp(h, d, smooth=smooth)
     A = {"EI": aq.ExpectedImprovement, "UCB": aq.UpperConfidenceBound, "MV": aq.MaxVariance}[kind]
-    a = A() if kind != "UCB" else A(kappa=h.real("kappa", nonneg=True))
+    kap = h.real("kappa", nonneg=True) if kind == "UCB" else None    # any kappa >= 0, zero included
+    a = A() if kind != "UCB" else A(kappa=kap)
+    a.requested_kappa = kap
     a.update_gp(gp)
     h.covers(A.__call__, A.opt_func, A.opt_func_gradient, aq.AcquisitionFunction.update_gp)
     if kind == "EI":
@@ -117,7 +119,7 @@ def ucb_and_max_variance(h, kind, d):
     aq, a, gp, mu, var = _acq(h, kind, d)
     x = h.real("x", d)
     s = h.sqrt(var(x))
-    ref = mu(x) + a.kappa * s if kind == "UCB" else var(x)
+    ref = mu(x) + a.requested_kappa * s if kind == "UCB" else var(x)
     val = a(x)
     h.eq("value == definition", val, ref)
     h.eq("opt_func == -value", a.opt_func(x), -val)
@@ -130,7 +132,7 @@ def ucb_and_max_variance(h, kind, d):
       thorough=[dict(d=2, ny=3), dict(d=2, ny=2, form="ndarray", rounds=2)], max_paths=4000)
 def starting_positions_inside_bounds(h, d, ny, form="tuples", rounds=1):
     import inference.gp.acquisition as aq
-    h.patch(aq, minimum=funcs.minimum, maximum=funcs.maximum, float=object)
+    h.patch(aq, minimum=funcs.minimum, maximum=funcs.maximum, float=stubs.FloatLike)
     rng = stubs.SymRng(h, "starts")
     h.patch(aq, both=True, random=lambda size=None: rng.random(size=size))
     h.covers(aq.AcquisitionFunction.starting_positions)
@@ -166,7 +168,7 @@ def starting_positions_inside_bounds(h, d, ny, form="tuples", rounds=1):
 def _optimiser(h, d, n, with_err=True, one_d_input=False):
     import inference.gp.optimisation as op
     import inference.gp.acquisition as aq
-    h.patch(aq, erf=funcs.erf, erfcx=funcs.erfcx, minimum=funcs.minimum, maximum=funcs.maximum, float=object)
+    h.patch(aq, erf=funcs.erf, erfcx=funcs.erfcx, minimum=funcs.minimum, maximum=funcs.maximum, float=stubs.FloatLike)
     h.patch(op, float=stubs.FloatLike)
     fits = []
     dt = object if h.sym else float
@@ -289,7 +291,7 @@ def acquisition_follows_the_current_regressor(h, kind, d):
 
     def ref(mu, var, gp, t):
         if kind == "UCB":
-            return mu(t) + a.kappa * h.sqrt(var(t))
+            return mu(t) + a.requested_kappa * h.sqrt(var(t))
         if kind == "MV":
             return var(t)
         return _ei_ref(h, mu, var, _max(h, gp.y), t)[0]
